@@ -67,6 +67,7 @@ structure Second where
   bust : Bool
   ctx : Nat
   cof : Bool
+  uncache : List Tid
   sched : List Choice
 
 structure Case where
@@ -127,7 +128,8 @@ def parseCase (parts : List String) : Option Case := do
       match natList r2, b2.toNat?, c2.toNat?, natList s2 with
       | some r, some b, some c, some s =>
         let cof2 := match (get m "cof2").bind String.toNat? with | some x => x == 1 | none => cof == 1
-        some { req := r, bust := b == 1, ctx := c, cof := cof2, sched := mkSched s }
+        let unc := ((get m "unc2").bind natList).getD []
+        some { req := r, bust := b == 1, ctx := c, cof := cof2, uncache := unc, sched := mkSched s }
       | _, _, _, _ => none
     | _, _, _, _ => none
   pure { cfg := { backend := be, maxWorkers := mw, contOnFail := cof == 1, bust := bust == 1 },
@@ -155,7 +157,7 @@ def observe (c : Case) : String :=
     let c2 : Case := { c with
       cfg := { c.cfg with bust := s2.bust, contOnFail := s2.cof }
       p := { c.p with requested := s2.req, behave := stdBehave s2.ctx c.strict c.noneVal, fails := c.failsAt s2.ctx }
-      store := store2, sched := s2.sched, second := none }
+      store := store2.filter (fun kv => kv.1 ∉ s2.uncache), sched := s2.sched, second := none }
     let (o2, _) := observeRun c2 (dedup rs1.marked)
     o1 ++ " || " ++ o2
   match c.second, rs1.status with
